@@ -845,6 +845,8 @@ def check_target(pid, repo=None, verif=None, timeout=120, keep=False):
         if rc != 0:
             return [(name, False, "the generated definition does not compile (rc %d): %s" % (rc, (err or out)[-600:]))]
         rc, out, err = run_coqc(base + [os.path.join(fresh, "Translated.v")], coq, timeout)
+        if rc == 124:       # the machine is too busy (the proof takes 2 s): no verdict from this tie, the case-based tie decides
+            return [(name, None, "coqc did not finish within %d s; no verdict from the source-level tie in this run" % timeout)]
         if rc != 0:
             return [(name, False, "the proof that the function translated from the current source equals the model function "
                                   "no longer checks (rc %d): %s" % (rc, " ".join((err or out).split())[-600:]))]
@@ -1027,7 +1029,7 @@ def pystr_check(verif=None, timeout=120, keep=False):
             res = evaluate("PyStrCheck.v", ["Eval vm_compute in SPACES.\n"] +
                            ["Eval vm_compute in (hall (map (%s) %s)).\n" % (coq_f, dom) for _, dom, coq_f, _ in checks])
         except RuntimeError as e:
-            return [(name, False, str(e))]
+            return [(name, None if "rc 124" in str(e) else False, str(e))]
         if len(res) != len(checks) + 1:
             return [(name, False, "expected %d results from coqc, parsed %d" % (len(checks) + 1, len(res)))]
         bad = []
